@@ -401,6 +401,10 @@ pub fn gen_c16(seed: u64, _index: u64) -> KPlan {
             3 => if (k / 12) % 2 == 0 { (pkts * 8 / 10) as u32 } else { 0 },
             _ => if r.chance(0.2) { r.range(1, 60) as u32 } else { 0 },
         };
+        if r.chance(0.06) {
+            // counters restart (re-registration) while the controller's state for the link lives on
+            events.push(KEv::ResetCounters { link });
+        }
         for l in 0..n_links {
             if l == link || r.chance(0.6) {
                 events.push(KEv::SetMeasured { link: l, bitrate_bps: rate, add_bytes: pkts * 1316, add_naks: naks });
